@@ -300,13 +300,18 @@ pub open spec fn rust_ident(s: Seq<char>) -> bool {
     s.len() > 0 && !ascii_digit(s[0]) && forall|i: int| 0 <= i < s.len() ==> (ascii_alnum(#[trigger] s[i]) || s[i] == '_' || (s[i] as u32) >= 128)
 }
 
-/// reserved words of JavaScript/TypeScript that are legal Rust identifiers
+/// words that cannot name a function in an ES module: the reserved words of ECMAScript (strict mode, module goal) with the
+/// literals, plus `arguments` and `eval` — taken from the language, not from the code under check; several are Rust keywords
+/// too, which the camelCase conversion can still produce (`enum_` -> `enum`, `r#try` -> `try`)
 pub open spec fn js_reserved(s: Seq<char>) -> bool {
-    s == "case"@ || s == "catch"@ || s == "class"@ || s == "debugger"@ || s == "default"@ || s == "delete"@
-    || s == "do"@ || s == "export"@ || s == "extends"@ || s == "finally"@ || s == "function"@ || s == "import"@
-    || s == "instanceof"@ || s == "new"@ || s == "null"@ || s == "switch"@ || s == "this"@ || s == "throw"@
-    || s == "typeof"@ || s == "var"@ || s == "void"@ || s == "with"@ || s == "implements"@ || s == "interface"@
-    || s == "package"@ || s == "private"@ || s == "protected"@ || s == "public"@ || s == "arguments"@ || s == "eval"@
+    s == "break"@ || s == "case"@ || s == "catch"@ || s == "class"@ || s == "const"@ || s == "continue"@
+    || s == "debugger"@ || s == "default"@ || s == "delete"@ || s == "do"@ || s == "else"@ || s == "enum"@
+    || s == "export"@ || s == "extends"@ || s == "false"@ || s == "finally"@ || s == "for"@ || s == "function"@
+    || s == "if"@ || s == "import"@ || s == "in"@ || s == "instanceof"@ || s == "new"@ || s == "null"@
+    || s == "return"@ || s == "super"@ || s == "switch"@ || s == "this"@ || s == "throw"@ || s == "true"@
+    || s == "try"@ || s == "typeof"@ || s == "var"@ || s == "void"@ || s == "while"@ || s == "with"@
+    || s == "implements"@ || s == "interface"@ || s == "let"@ || s == "package"@ || s == "private"@ || s == "protected"@
+    || s == "public"@ || s == "static"@ || s == "yield"@ || s == "await"@ || s == "arguments"@ || s == "eval"@
 }
 
 pub open spec fn all_ident_chars(s: Seq<char>) -> bool { forall|i: int| 0 <= i < s.len() ==> ident_char(#[trigger] s[i]) }
@@ -324,11 +329,7 @@ pub proof fn lemma_underscore_first_not_reserved(s: Seq<char>)
     reveal_strlit("_");
     let t = "_"@ + s;
     assert(t[0] == '_');
-    reveal_strlit("case"); reveal_strlit("catch"); reveal_strlit("class"); reveal_strlit("debugger"); reveal_strlit("default"); reveal_strlit("delete");
-    reveal_strlit("do"); reveal_strlit("export"); reveal_strlit("extends"); reveal_strlit("finally"); reveal_strlit("function"); reveal_strlit("import");
-    reveal_strlit("instanceof"); reveal_strlit("new"); reveal_strlit("null"); reveal_strlit("switch"); reveal_strlit("this"); reveal_strlit("throw");
-    reveal_strlit("typeof"); reveal_strlit("var"); reveal_strlit("void"); reveal_strlit("with"); reveal_strlit("implements"); reveal_strlit("interface");
-    reveal_strlit("package"); reveal_strlit("private"); reveal_strlit("protected"); reveal_strlit("public"); reveal_strlit("arguments"); reveal_strlit("eval");
+    reveal_strlit("break"); reveal_strlit("case"); reveal_strlit("catch"); reveal_strlit("class"); reveal_strlit("const"); reveal_strlit("continue"); reveal_strlit("debugger"); reveal_strlit("default"); reveal_strlit("delete"); reveal_strlit("do"); reveal_strlit("else"); reveal_strlit("enum"); reveal_strlit("export"); reveal_strlit("extends"); reveal_strlit("false"); reveal_strlit("finally"); reveal_strlit("for"); reveal_strlit("function"); reveal_strlit("if"); reveal_strlit("import"); reveal_strlit("in"); reveal_strlit("instanceof"); reveal_strlit("new"); reveal_strlit("null"); reveal_strlit("return"); reveal_strlit("super"); reveal_strlit("switch"); reveal_strlit("this"); reveal_strlit("throw"); reveal_strlit("true"); reveal_strlit("try"); reveal_strlit("typeof"); reveal_strlit("var"); reveal_strlit("void"); reveal_strlit("while"); reveal_strlit("with"); reveal_strlit("implements"); reveal_strlit("interface"); reveal_strlit("let"); reveal_strlit("package"); reveal_strlit("private"); reveal_strlit("protected"); reveal_strlit("public"); reveal_strlit("static"); reveal_strlit("yield"); reveal_strlit("await"); reveal_strlit("arguments"); reveal_strlit("eval");
 }
 
 /// C01: the wrapper name is an identifier whenever the camelCase form consists of identifier characters
@@ -338,11 +339,7 @@ pub proof fn lemma_wrapper_name_is_identifier(camel: Seq<char>)
 {
     reveal_strlit("_");
     if js_reserved(camel) {
-        reveal_strlit("case"); reveal_strlit("catch"); reveal_strlit("class"); reveal_strlit("debugger"); reveal_strlit("default"); reveal_strlit("delete");
-        reveal_strlit("do"); reveal_strlit("export"); reveal_strlit("extends"); reveal_strlit("finally"); reveal_strlit("function"); reveal_strlit("import");
-        reveal_strlit("instanceof"); reveal_strlit("new"); reveal_strlit("null"); reveal_strlit("switch"); reveal_strlit("this"); reveal_strlit("throw");
-        reveal_strlit("typeof"); reveal_strlit("var"); reveal_strlit("void"); reveal_strlit("with"); reveal_strlit("implements"); reveal_strlit("interface");
-        reveal_strlit("package"); reveal_strlit("private"); reveal_strlit("protected"); reveal_strlit("public"); reveal_strlit("arguments"); reveal_strlit("eval");
+        reveal_strlit("break"); reveal_strlit("case"); reveal_strlit("catch"); reveal_strlit("class"); reveal_strlit("const"); reveal_strlit("continue"); reveal_strlit("debugger"); reveal_strlit("default"); reveal_strlit("delete"); reveal_strlit("do"); reveal_strlit("else"); reveal_strlit("enum"); reveal_strlit("export"); reveal_strlit("extends"); reveal_strlit("false"); reveal_strlit("finally"); reveal_strlit("for"); reveal_strlit("function"); reveal_strlit("if"); reveal_strlit("import"); reveal_strlit("in"); reveal_strlit("instanceof"); reveal_strlit("new"); reveal_strlit("null"); reveal_strlit("return"); reveal_strlit("super"); reveal_strlit("switch"); reveal_strlit("this"); reveal_strlit("throw"); reveal_strlit("true"); reveal_strlit("try"); reveal_strlit("typeof"); reveal_strlit("var"); reveal_strlit("void"); reveal_strlit("while"); reveal_strlit("with"); reveal_strlit("implements"); reveal_strlit("interface"); reveal_strlit("let"); reveal_strlit("package"); reveal_strlit("private"); reveal_strlit("protected"); reveal_strlit("public"); reveal_strlit("static"); reveal_strlit("yield"); reveal_strlit("await"); reveal_strlit("arguments"); reveal_strlit("eval");
         let t = camel + "_"@;
         assert(camel.len() >= 2);
         assert(t[0] == camel[0]);
@@ -362,11 +359,7 @@ pub proof fn lemma_reserved_plus_underscore(s: Seq<char>)
     reveal_strlit("_");
     let t = s + "_"@;
     assert(t.last() == '_');
-    reveal_strlit("case"); reveal_strlit("catch"); reveal_strlit("class"); reveal_strlit("debugger"); reveal_strlit("default"); reveal_strlit("delete");
-    reveal_strlit("do"); reveal_strlit("export"); reveal_strlit("extends"); reveal_strlit("finally"); reveal_strlit("function"); reveal_strlit("import");
-    reveal_strlit("instanceof"); reveal_strlit("new"); reveal_strlit("null"); reveal_strlit("switch"); reveal_strlit("this"); reveal_strlit("throw");
-    reveal_strlit("typeof"); reveal_strlit("var"); reveal_strlit("void"); reveal_strlit("with"); reveal_strlit("implements"); reveal_strlit("interface");
-    reveal_strlit("package"); reveal_strlit("private"); reveal_strlit("protected"); reveal_strlit("public"); reveal_strlit("arguments"); reveal_strlit("eval");
+    reveal_strlit("break"); reveal_strlit("case"); reveal_strlit("catch"); reveal_strlit("class"); reveal_strlit("const"); reveal_strlit("continue"); reveal_strlit("debugger"); reveal_strlit("default"); reveal_strlit("delete"); reveal_strlit("do"); reveal_strlit("else"); reveal_strlit("enum"); reveal_strlit("export"); reveal_strlit("extends"); reveal_strlit("false"); reveal_strlit("finally"); reveal_strlit("for"); reveal_strlit("function"); reveal_strlit("if"); reveal_strlit("import"); reveal_strlit("in"); reveal_strlit("instanceof"); reveal_strlit("new"); reveal_strlit("null"); reveal_strlit("return"); reveal_strlit("super"); reveal_strlit("switch"); reveal_strlit("this"); reveal_strlit("throw"); reveal_strlit("true"); reveal_strlit("try"); reveal_strlit("typeof"); reveal_strlit("var"); reveal_strlit("void"); reveal_strlit("while"); reveal_strlit("with"); reveal_strlit("implements"); reveal_strlit("interface"); reveal_strlit("let"); reveal_strlit("package"); reveal_strlit("private"); reveal_strlit("protected"); reveal_strlit("public"); reveal_strlit("static"); reveal_strlit("yield"); reveal_strlit("await"); reveal_strlit("arguments"); reveal_strlit("eval");
 }
 
 /// characters Tauri allows in event names (ASCII part of `is_alphanumeric() || - / : _`)
